@@ -35,6 +35,7 @@ structure Tables where
   introTable : List (Intro.GoT × String × Intro.Arm)
   locateTable : List (Intro.GoT × String)
   metaLiteral : String
+  sdlEmptyTokenSpins : Bool
 
 /-- snapshot of `Gen/Tables.lean` at the pinned commit -/
 def pinnedValueTbl : ValueText.Tbl :=
@@ -161,6 +162,6 @@ def pinnedTables : Tables :=
     outTime := Pinned.coerceOutTime, inTime := Pinned.coerceInTime,
     introTable := pinnedIntroTable,
     locateTable := [(.enum, "ENUM"), (.iface, "INTERFACE"), (.input, "INPUT_OBJECT"), (.object, "OBJECT"), (.scalar, "SCALAR"), (.union, "UNION")],
-    metaLiteral := "Query" }
+    metaLiteral := "Query", sdlEmptyTokenSpins := true }
 
 end Ggql.Driver
